@@ -103,14 +103,18 @@ func c10Run(c Case) (Result, error) {
 			}
 			kept = nil
 		}
+		// the own polynomial becomes the seed's only if this Start is ACCEPTED (a refused Start with another
+		// seed changes nothing); the step itself is translated with the tentative table
+		tryKnown := known
 		if call.Op == "start" && len(unhx(call.Seed)) >= crypto.KeyGenSeedMinLen && in.My == ownIdx {
 			a, err := dkgPolyOfSeed(unhx(call.Seed), in.T)
 			if err != nil {
 				return Result{}, err
 			}
-			known[ownIdx] = a
+			tryKnown = append([][]*big.Int{}, known...)
+			tryKnown[ownIdx] = a
 		}
-		term, o, err := dkgStep(d, p, call, in.T, known)
+		term, o, err := dkgStep(d, p, call, in.T, tryKnown)
 		if err != nil {
 			return Result{}, err
 		}
@@ -118,6 +122,7 @@ func c10Run(c Case) (Result, error) {
 			refused++
 		} else {
 			accepted++
+			known = tryKnown
 		}
 		terms = append(terms, term)
 		obs = append(obs, o)
@@ -734,6 +739,20 @@ func c10Directed(tier string, r *rand.Rand) []Case {
 					to, to, end, st, cx.symbol(r, "start", false), st, to, to, end)
 				cs = append(cs, mkcase("seedlen-"+proto, in))
 			}
+		}
+	}
+	// ---- a refused Start carrying ANOTHER valid seed (also a short one, nil), as dealer: the complaints that
+	// follow are answered from the polynomial of the accepted Start ----
+	for _, proto := range []string{"qual", "joint", "vss"} {
+		for k, other := range [][]byte{rbytes(r, 32), rbytes(r, 48), rbytes(r, 5), nil} {
+			cx := newCx(proto, 0, 4+r.IntN(2))
+			my, n := cx.in.My, cx.in.N
+			c1, c2 := (my+1)%n, (my+2)%n
+			st2 := dkgCall{Op: "start", Seed: hx(other), Nil: other == nil}
+			in := *cx.in
+			in.Calls = append([]dkgCall{cx.symbol(r, "start", false), {Op: "running"}}, cx.restHonest()...)
+			in.Calls = append(in.Calls, st2, bc(c1, dkgMsgComplaint(my)), st2, to, bc(c2, dkgMsgComplaint(my)), st2, to, end)
+			cs = append(cs, mkcase(fmt.Sprintf("refused-start-other-seed-%s-%d", proto, k), in))
 		}
 	}
 	return cs
